@@ -26,7 +26,7 @@ class List(Environment):
         def invoke(self, tex):
             """ Set up counter for this list depth """
             try:
-                self.counter = List.counters[List.depth-1]
+                self.counter = List.counters[List.getDepth(self.ownerDocument)-1]
                 self.position = self.ownerDocument.context.counters[self.counter].value + 1
             except (KeyError, IndexError):
                 pass
@@ -48,14 +48,20 @@ class List(Environment):
             if self.forcePars:
                 self.paragraphs()
 
+    @staticmethod
+    def getDepth(document):
+        """ List nesting depth in `document` (kept per document) """
+        return getattr(document.context, 'listDepth', 0)
+
     def invoke(self, tex):
         """ Set list nesting depth """
+        context = self.ownerDocument.context
         if self.macroMode != Environment.MODE_END:
-            List.depth += 1
+            context.listDepth = List.getDepth(self.ownerDocument) + 1
         else:
-            List.depth -= 1
+            context.listDepth = List.getDepth(self.ownerDocument) - 1
         try:
-            for i in range(List.depth, len(List.counters)):
+            for i in range(context.listDepth, len(List.counters)):
                 self.ownerDocument.context.counters[List.counters[i]].setcounter(0)
         except (IndexError, KeyError):
             pass
